@@ -1,0 +1,16 @@
+//go:build verif
+
+package keeper
+
+import (
+	sdkmath "cosmossdk.io/math"
+
+	v1 "mods.irisnet.org/modules/token/types/v1"
+)
+
+// VerifCalcFeeFactor exposes calcFeeFactor to the verification harness (fee-factor table translator).
+func VerifCalcFeeFactor(name string) sdkmath.LegacyDec { return calcFeeFactor(name) }
+
+// VerifSwapRegistry exposes the keeper's swap registry (a map shared by all copies of the keeper,
+// including the one held by the message server) so that the harness can configure fee-token swaps.
+func (k Keeper) VerifSwapRegistry() v1.SwapRegistry { return k.registry }
